@@ -1805,4 +1805,157 @@ theorem aggregate_views_consistent (rows ops : List Row) (n : Nat) (keyOf : Row 
   have s := sort_in_place_keeps_views _ w0.2 (by omega) keyOf v (by omega)
   rw [s.1, w0.1, ofJoin_read rows n 0 hn]
 
+
+/-! ## quantified comparisons: IN / NOT IN / ANY / ALL over a subquery result -/
+theorem not_in_empty_true (v : Val) : notInSub v [] = some true := rfl
+theorem in_empty_false (v : Val) : inSub v [] = some false := rfl
+theorem all_empty_true (op : CmpOp) (v : Val) : all3 op v [] = some true := rfl
+theorem any_empty_false (op : CmpOp) (v : Val) : any3 op v [] = some false := rfl
+
+theorem cmp3_null_left (op : CmpOp) (x : Val) : cmp3 op .null x = none := by cases x <;> rfl
+
+/-- a NULL probe against a NON-empty result is UNKNOWN, for ANY and for ALL -/
+theorem null_probe_unknown (op : CmpOp) (xs : List Val) (h : xs ≠ []) :
+    any3 op .null xs = none ∧ all3 op .null xs = none := by
+  induction xs with
+  | nil => exact absurd rfl h
+  | cons x xs ih =>
+    simp only [any3, all3, cmp3_null_left]
+    cases xs with
+    | nil => exact ⟨rfl, rfl⟩
+    | cons y ys =>
+      have := ih (by simp)
+      rw [this.1, this.2]; exact ⟨rfl, rfl⟩
+
+theorem cmp3_eq_true_iff (v x : Val) : cmp3 .eq v x = some true ↔ (v ≠ .null ∧ x ≠ .null ∧ v = x) := by
+  cases v <;> cases x <;> simp [cmp3, CmpOp.test, Val.cmp, Val.tag]
+
+/-- IN is ∃ under three-valued logic: TRUE iff some element matches -/
+theorem in_true_iff (v : Val) (xs : List Val) : inSub v xs = some true ↔ (v ≠ .null ∧ v ∈ xs) := by
+  unfold inSub
+  induction xs with
+  | nil => simp [any3]
+  | cons x xs ih =>
+    simp only [any3]
+    constructor
+    · intro h
+      cases hc : cmp3 .eq v x with
+      | some b =>
+        cases b with
+        | true =>
+          have := (cmp3_eq_true_iff v x).1 hc
+          exact ⟨this.1, by simp [this.2.2]⟩
+        | false =>
+          rw [hc] at h
+          have h' : any3 .eq v xs = some true := by
+            cases ha : any3 .eq v xs with
+            | none => rw [ha] at h; cases h
+            | some b => cases b <;> simp_all [or3]
+          have := ih.1 h'
+          exact ⟨this.1, by simp [this.2]⟩
+      | none =>
+        rw [hc] at h
+        have h' : any3 .eq v xs = some true := by
+          cases ha : any3 .eq v xs with
+          | none => rw [ha] at h; cases h
+          | some b => cases b <;> simp_all [or3]
+        have := ih.1 h'
+        exact ⟨this.1, by simp [this.2]⟩
+    · rintro ⟨hv, hm⟩
+      simp only [List.mem_cons] at hm
+      rcases hm with rfl | hm
+      · have : cmp3 .eq v v = some true := (cmp3_eq_true_iff v v).2 ⟨hv, hv, rfl⟩
+        rw [this]; cases any3 .eq v xs with
+        | none => rfl
+        | some b => cases b <;> rfl
+      · rw [ih.2 ⟨hv, hm⟩]
+        cases cmp3 .eq v x with
+        | none => rfl
+        | some b => cases b <;> rfl
+
+theorem in_false_iff (v : Val) (xs : List Val) : inSub v xs = some false ↔ (xs = [] ∨ (v ≠ .null ∧ ¬ .null ∈ xs ∧ ¬ v ∈ xs)) := by
+  unfold inSub
+  induction xs with
+  | nil => simp [any3]
+  | cons x xs ih =>
+    simp only [any3, List.cons_ne_nil, false_or, List.mem_cons, not_or]
+    constructor
+    · intro h
+      have hc : cmp3 .eq v x = some false := by
+        cases hc : cmp3 .eq v x with
+        | none => rw [hc] at h; cases ha : any3 .eq v xs with
+          | none => rw [ha] at h; cases h
+          | some b => rw [ha] at h; cases b <;> cases h
+        | some b => cases b with
+          | false => rfl
+          | true => rw [hc] at h; cases h
+      rw [hc] at h
+      have ha : any3 .eq v xs = some false := by
+        cases ha : any3 .eq v xs with
+        | none => rw [ha] at h; cases h
+        | some b => cases b with
+          | false => rfl
+          | true => rw [ha] at h; cases h
+      have hvx : v ≠ .null ∧ x ≠ .null ∧ v ≠ x := by
+        cases v <;> cases x <;> simp_all [cmp3, CmpOp.test, Val.cmp, Val.tag]
+      rcases ih.1 ha with rfl | ⟨_, h2, h3⟩
+      · exact ⟨hvx.1, ⟨fun e => hvx.2.1 e.symm, by simp⟩, ⟨hvx.2.2, by simp⟩⟩
+      · exact ⟨hvx.1, ⟨fun e => hvx.2.1 e.symm, h2⟩, ⟨hvx.2.2, h3⟩⟩
+    · rintro ⟨hv, ⟨hx, hn⟩, ⟨hne, hnm⟩⟩
+      have hc : cmp3 .eq v x = some false := by
+        have hx' : x ≠ .null := fun e => hx e.symm
+        cases v <;> cases x <;> simp_all [cmp3, CmpOp.test, Val.cmp, Val.tag]
+      have ha : any3 .eq v xs = some false := by
+        by_cases hxs : xs = []
+        · subst hxs; rfl
+        · exact ih.2 (Or.inr ⟨hv, hn, hnm⟩)
+      rw [hc, ha]; rfl
+
+/-- a NULL in the subquery result: IN is TRUE on a match and otherwise UNKNOWN, never FALSE -/
+theorem in_with_null_unknown_unless_match (v : Val) (xs : List Val) (hv : v ≠ .null) (hn : .null ∈ xs) :
+    (v ∈ xs → inSub v xs = some true) ∧ (¬ v ∈ xs → inSub v xs = none) := by
+  constructor
+  · intro hm; exact (in_true_iff v xs).2 ⟨hv, hm⟩
+  · intro hm
+    cases h : inSub v xs with
+    | none => rfl
+    | some b =>
+      cases b with
+      | true => exact absurd ((in_true_iff v xs).1 h).2 hm
+      | false =>
+        rcases (in_false_iff v xs).1 h with rfl | ⟨_, h2, _⟩
+        · cases hn
+        · exact absurd hn h2
+
+/-- NOT IN is ∀ under three-valued logic: `v NOT IN xs` = `v <> ALL xs` (De Morgan for Kleene's connectives) -/
+theorem not_in_is_all_ne (v : Val) (xs : List Val) : notInSub v xs = all3 .ne v xs := by
+  unfold notInSub
+  induction xs with
+  | nil => rfl
+  | cons x xs ih =>
+    simp only [any3, all3, ← ih]
+    have hc : cmp3 .ne v x = not3 (cmp3 .eq v x) := by
+      cases v <;> cases x <;> simp only [cmp3, not3, CmpOp.test] <;> rfl
+    rw [hc]
+    cases cmp3 .eq v x with
+    | none => cases any3 .eq v xs with
+      | none => rfl
+      | some b => cases b <;> rfl
+    | some c => cases c <;> (cases any3 .eq v xs with
+      | none => rfl
+      | some b => cases b <;> rfl)
+
+/-- the ENV entry as registered (NOT wrapped) is the quantified comparison, also for a NULL probe -/
+theorem subquery_comparison_env_spec (op : CmpOp) (v : Val) (xs : List Val) :
+    subqueryComparisonEnv false stdCfg (cmpName op) "ANY" v xs = some (triVal (any3 op v xs))
+    ∧ subqueryComparisonEnv false stdCfg (cmpName op) "ALL" v xs = some (triVal (all3 op v xs))
+    ∧ notInSubquery false stdCfg v xs = some (triVal (notInSub v xs)) := by
+  have h := subquery_comparison_spec op v xs
+  have he := subquery_comparison_spec .eq v xs
+  refine ⟨by simpa [subqueryComparisonEnv] using h.1, by simpa [subqueryComparisonEnv] using h.2, ?_⟩
+  simp only [notInSubquery, subqueryComparisonEnv, Bool.false_and, Bool.false_eq_true, if_false]
+  have : subqueryComparison stdCfg "EQ" "ANY" v xs = some (triVal (any3 .eq v xs)) := he.1
+  rw [this, Option.map_some, sqlNot_eq, toTri_triVal]
+  rfl
+
 end SqlglotModel.Exec
